@@ -691,6 +691,15 @@ func (s *source) closeShareSession(ctx context.Context) {
 	s.share.buffered = shareBufferedFetch{}
 	if b.doneFetch != nil { // source had a buffered fetch
 		b.doneFetch <- false
+
+		// The records were hooked as buffered when the fetch was
+		// stored; they are discarded here without being polled.
+		c := &s.cl.consumer
+		c.sourcesReadyMu.Lock()
+		s.hookDeferUnbuffered(&b.fetch, false)
+		c.sourcesReadyMu.Unlock()
+		c.runDeferredFetchHooks()
+
 		for ti := range b.fetch.Topics {
 			t := &b.fetch.Topics[ti]
 			for pi := range t.Partitions {
